@@ -30,3 +30,177 @@ package implements
 //@   props C17 C10
 //@   ensures result == v.Pos
 //@   assigns nothing
+
+// ---- @implements: loaders and matcher ---------------------------------------------------------------------------------
+// NOT a decision of C05 (agreement with go/types' identity and method sets is not expressible here, see /verif/DESIGN.md):
+// the loaders are proved total and read-only (C10), and the matcher is pinned to its own model of signatures, so a change
+// of what it compares is noticed.
+//@ func convertTypesToInterfaceType
+//@   props C10
+//@   requires t != nil
+//@   assigns nothing
+//@ func convertTypesToMethodType
+//@   props C10
+//@   requires t != nil
+//@   assigns nothing
+//@ func extractTypesFromTuple
+//@   props C10
+//@   nilable tuple
+//@   assigns nothing
+//@   ensures tuple == nil ==> len(result) == 0
+//@   ensures tuple != nil ==> len(result) == tuple.Len()
+//@   loop 1 invariant len(result) == tuple.Len() && 0 <= i
+//@ func extractMethodTypesFromTuple
+//@   props C10
+//@   nilable tuple
+//@   assigns nothing
+//@   ensures tuple == nil ==> len(result) == 0
+//@   ensures tuple != nil ==> len(result) == tuple.Len()
+//@   loop 1 invariant len(result) == tuple.Len() && 0 <= i
+//@ func extractMethodsFromInterface
+//@   props C10
+//@   assigns nothing
+//@   loop 1 invariant 0 <= i
+//@ func extractMethodsFromNamedType
+//@   props C10
+//@   assigns nothing
+//@   ensures forall a int, b int :: 0 <= a && a < b && b < len(result) ==> result[a].Name != result[b].Name
+//@   loop 1 invariant 0 <= i && i <= methodSet.Len() && methodSet != nil && len(methods) == i
+//@   loop 1 invariant forall a int :: 0 <= a && a < len(methods) ==> methods[a].Name == methodSet.At(a).Obj().Name()
+//@ func isPointerReceiver
+//@   props C10
+//@   nilable t
+//@   ensures result == typeis(t, *types.Pointer)
+//@   assigns nothing
+//@ func getUnderlyingTypeName
+//@   props C10
+//@   requires t != nil
+//@   assigns nothing
+
+// the matcher's model: a parameter is (type name, package path, pointer flag, variadic flag)
+//@ macro func mtEq(a MethodType, b InterfaceType) bool = a.TypeName == b.TypeName && a.TypePackage == b.TypePackage && a.IsPointer == b.IsPointer && a.IsVariadic == b.IsVariadic
+//@ macro func sigEq(tm TypeMethod, im InterfaceMethod) bool = len(tm.Inputs) == len(im.Inputs) && len(tm.Outputs) == len(im.Outputs) && (forall i int :: 0 <= i && i < len(tm.Inputs) ==> mtEq(tm.Inputs[i], im.Inputs[i])) && (forall i int :: 0 <= i && i < len(tm.Outputs) ==> mtEq(tm.Outputs[i], im.Outputs[i]))
+//@ func typesMatch
+//@   props C10
+//@   requires t1 != nil && t2 != nil
+//@   ensures result == mtEq(*t1, *t2)
+//@   assigns nothing
+//@ func signaturesMatch
+//@   props C10
+//@   ensures result == sigEq(typeMethod, ifaceMethod)
+//@   assigns nothing
+//@   loop 1 invariant forall k int :: 0 <= k && k < $i ==> mtEq(typeMethod.Inputs[k], ifaceMethod.Inputs[k])
+//@   loop 2 invariant forall k int :: 0 <= k && k < len(typeMethod.Inputs) ==> mtEq(typeMethod.Inputs[k], ifaceMethod.Inputs[k])
+//@   loop 2 invariant forall k int :: 0 <= k && k < $i ==> mtEq(typeMethod.Outputs[k], ifaceMethod.Outputs[k])
+//@   loop 1 frame
+//@   loop 2 frame
+
+// IMPL01: exactly the annotations whose qualifier is not bound (PackageNotFound, decided by util.ImportMap.Find)
+//@ func FindMissingPackages
+//@   props C17 C10
+//@   assigns nothing
+//@   ensures forall j int :: 0 <= j && j < len(result) ==> (exists k int :: 0 <= k && k < len(annotations) && annotations[k].PackageNotFound && result[j].Pos == annotations[k].OnTypePos && result[j].TypeName == annotations[k].OnType && result[j].PackageName == annotations[k].PackageName)
+//@   ensures forall k int :: 0 <= k && k < len(annotations) && annotations[k].PackageNotFound ==> (exists j int :: 0 <= j && j < len(result) && result[j].Pos == annotations[k].OnTypePos && result[j].TypeName == annotations[k].OnType && result[j].PackageName == annotations[k].PackageName)
+//@   loop 1 invariant forall j int :: 0 <= j && j < len(result) ==> (exists k int :: 0 <= k && k < $i && annotations[k].PackageNotFound && result[j].Pos == annotations[k].OnTypePos && result[j].TypeName == annotations[k].OnType && result[j].PackageName == annotations[k].PackageName)
+//@   loop 1 invariant forall k int :: 0 <= k && k < $i && annotations[k].PackageNotFound ==> (exists j int :: 0 <= j && j < len(result) && result[j].Pos == annotations[k].OnTypePos && result[j].TypeName == annotations[k].OnType && result[j].PackageName == annotations[k].PackageName)
+
+// the type's methods that count: all for &I, only value-receiver methods for I; names in a method set are unique
+//@ macro func usable(m TypeMethod, requirePointer bool) bool = requirePointer || !m.ReceiverIsPointer
+//@ macro func implemented(tm *TypeModel, im InterfaceMethod, requirePointer bool) bool = exists q int :: 0 <= q && q < len(tm.Methods) && usable(tm.Methods[q], requirePointer) && tm.Methods[q].Name == im.Name && sigEq(tm.Methods[q], im)
+//@ macro func uniqueNames(tm *TypeModel) bool = forall a int, b int :: 0 <= a && a < b && b < len(tm.Methods) ==> tm.Methods[a].Name != tm.Methods[b].Name
+// IMPL03 (in the matcher's own model): exactly the interface methods without a usable method of the same name and signature
+//@ func checkImplementation
+//@   props C10
+//@   requires typeModel != nil && iface != nil && uniqueNames(typeModel)
+//@   assigns nothing
+//@   ensures forall j int :: 0 <= j && j < len(result) ==> (exists k int :: 0 <= k && k < len(iface.Methods) && result[j] == iface.Methods[k] && !implemented(typeModel, iface.Methods[k], requirePointer))
+//@   ensures forall k int :: 0 <= k && k < len(iface.Methods) && !implemented(typeModel, iface.Methods[k], requirePointer) ==> (exists j int :: 0 <= j && j < len(result) && result[j] == iface.Methods[k])
+//@   loop 1 frame
+//@   loop 2 frame
+//@   loop 1 invariant typeMethods != nil && fresh(typeMethods)
+//@   loop 1 invariant forall n string :: indom(typeMethods, n) <==> (exists q int :: 0 <= q && q < $i && usable(typeModel.Methods[q], requirePointer) && typeModel.Methods[q].Name == n)
+//@   loop 1 invariant forall q int :: 0 <= q && q < $i && usable(typeModel.Methods[q], requirePointer) ==> typeMethods[typeModel.Methods[q].Name] == typeModel.Methods[q]
+//@   loop 2 invariant forall j int :: 0 <= j && j < len(missing) ==> (exists k int :: 0 <= k && k < $i && missing[j] == iface.Methods[k] && !implemented(typeModel, iface.Methods[k], requirePointer))
+//@   loop 2 invariant forall k int :: 0 <= k && k < $i && !implemented(typeModel, iface.Methods[k], requirePointer) ==> (exists j int :: 0 <= j && j < len(missing) && missing[j] == iface.Methods[k])
+
+// interfaces and annotations are matched by the string key "<package path>.<interface name>"
+//@ macro func ifaceKey(m *InterfaceModel) string = m.Package + "." + m.Name
+//@ macro func annKey(a annotations.ImplementsAnnotation) string = a.PackageFullPath + "." + a.InterfaceName
+//@ macro func haveIface(interfaces []*InterfaceModel, a annotations.ImplementsAnnotation) bool = exists i int :: 0 <= i && i < len(interfaces) && ifaceKey(interfaces[i]) == annKey(a)
+//@ macro func mi02(r MissingInterfaceReport, a annotations.ImplementsAnnotation) bool = r.Pos == a.OnTypePos && r.TypeName == a.OnType && r.PackageName == a.PackageName && r.InterfaceName == a.InterfaceName
+// IMPL02: exactly the annotations with a bound qualifier for which no loaded interface has the key
+//@ func FindMissingInterfaces
+//@   props C17 C10
+//@   requires forall k int :: 0 <= k && k < len(interfaces) ==> interfaces[k] != nil
+//@   assigns nothing
+//@   ensures forall j int :: 0 <= j && j < len(result) ==> (exists k int :: 0 <= k && k < len(annotations) && !annotations[k].PackageNotFound && !haveIface(interfaces, annotations[k]) && mi02(result[j], annotations[k]))
+//@   ensures forall k int :: 0 <= k && k < len(annotations) && !annotations[k].PackageNotFound && !haveIface(interfaces, annotations[k]) ==> (exists j int :: 0 <= j && j < len(result) && mi02(result[j], annotations[k]))
+//@   loop 1 frame
+//@   loop 2 frame
+//@   loop 1 invariant foundInterfaces != nil && fresh(foundInterfaces)
+//@   loop 1 invariant forall key string :: foundInterfaces[key] <==> (exists i int :: 0 <= i && i < $i && ifaceKey(interfaces[i]) == key)
+//@   loop 2 invariant forall j int :: 0 <= j && j < len(result) ==> (exists k int :: 0 <= k && k < $i && !annotations[k].PackageNotFound && !haveIface(interfaces, annotations[k]) && mi02(result[j], annotations[k]))
+//@   loop 2 invariant forall k int :: 0 <= k && k < $i && !annotations[k].PackageNotFound && !haveIface(interfaces, annotations[k]) ==> (exists j int :: 0 <= j && j < len(result) && mi02(result[j], annotations[k]))
+
+// the loaders: read-only; every model is a fresh object; type models have one method per name
+//@ func findInterfacesInPackage
+//@   props C10
+//@   requires pkg != nil
+//@   assigns nothing
+//@   ensures forall k int :: 0 <= k && k < len(result) ==> result[k] != nil && fresh(result[k])
+//@   loop 1 frame
+//@   loop 1 invariant forall k int :: 0 <= k && k < len(result) ==> result[k] != nil && fresh(result[k])
+//@ func LoadInterfaces
+//@   props C10
+//@   requires pass.Pkg != nil
+//@   assigns nothing
+//@   ensures forall k int :: 0 <= k && k < len(result) ==> result[k] != nil && fresh(result[k])
+//@   loop 1 frame
+//@   loop 2 frame
+//@   loop 3 frame
+//@   loop 1 invariant pkgToInterface != nil && fresh(pkgToInterface) && (forall p string :: indom(pkgToInterface, p) && pkgToInterface[p] != nil ==> fresh(pkgToInterface[p]))
+//@   loop 2 invariant forall k int :: 0 <= k && k < len(packagesToScan) ==> packagesToScan[k] != nil
+//@   loop 3 invariant forall k int :: 0 <= k && k < len(result) ==> result[k] != nil && fresh(result[k])
+//@ func findTypesInPackage
+//@   props C10
+//@   requires pkg != nil
+//@   assigns nothing
+//@   ensures forall k int :: 0 <= k && k < len(result) ==> result[k] != nil && fresh(result[k]) && uniqueNames(result[k])
+//@   loop 1 frame
+//@   loop 1 invariant forall k int :: 0 <= k && k < len(result) ==> result[k] != nil && fresh(result[k]) && uniqueNames(result[k])
+//@ func LoadTypes
+//@   props C10
+//@   requires pass.Pkg != nil
+//@   assigns nothing
+//@   ensures forall k int :: 0 <= k && k < len(result) ==> result[k] != nil && fresh(result[k]) && uniqueNames(result[k])
+//@   loop 1 frame
+//@   loop 1 invariant targetTypes != nil && fresh(targetTypes)
+
+//@ func FindMissingMethods
+//@   props C17 C10
+//@   requires forall k int :: 0 <= k && k < len(interfaces) ==> interfaces[k] != nil
+//@   requires forall k int :: 0 <= k && k < len(types) ==> types[k] != nil && uniqueNames(types[k])
+//@   assigns nothing
+//@   ensures forall j int :: 0 <= j && j < len(result) ==> (exists k int :: 0 <= k && k < len(annotations) && !annotations[k].PackageNotFound && result[j].Pos == annotations[k].OnTypePos && result[j].TypeName == annotations[k].OnType)
+//@   loop 1 frame
+//@   loop 2 frame
+//@   loop 3 frame
+//@   loop 1 invariant interfaceIndex != nil && fresh(interfaceIndex) && (forall key string :: indom(interfaceIndex, key) ==> interfaceIndex[key] != nil)
+//@   loop 2 invariant typeIndex != nil && fresh(typeIndex) && (forall key string :: indom(typeIndex, key) ==> typeIndex[key] != nil && uniqueNames(typeIndex[key]))
+//@   loop 2 invariant interfaceIndex != nil && (forall key string :: indom(interfaceIndex, key) ==> interfaceIndex[key] != nil)
+//@   loop 3 invariant interfaceIndex != nil && (forall key string :: indom(interfaceIndex, key) ==> interfaceIndex[key] != nil) && typeIndex != nil && (forall key string :: indom(typeIndex, key) ==> typeIndex[key] != nil && uniqueNames(typeIndex[key]))
+//@   loop 3 invariant forall j int :: 0 <= j && j < len(result) ==> (exists k int :: 0 <= k && k < $i && !annotations[k].PackageNotFound && result[j].Pos == annotations[k].OnTypePos && result[j].TypeName == annotations[k].OnType)
+
+// every problem goes through the common Reporter (suppression by code and position, C17); earlier reports are kept
+//@ func ReportProblems
+//@   props C17 C10
+//@   requires pass != nil && (ignoreSet != nil ==> isetInv(ignoreSet))
+//@   assigns pass.$reports
+//@   ensures len(pass.$reports) >= old(len(pass.$reports)) && (forall k int :: 0 <= k && k < old(len(pass.$reports)) ==> pass.$reports[k] == old(pass.$reports)[k])
+//@   ensures len(missingPackages) == 0 && len(missingInterfaces) == 0 && len(missingMethods) == 0 ==> len(pass.$reports) == old(len(pass.$reports))
+//@   loop 1 frame
+//@   loop 2 frame
+//@   loop 3 frame
+//@   loop 1 invariant reporterOK(reporter) && reporter.pass == pass && reporter.ignoreSet == ignoreSet && pass.$reports == old(pass.$reports) && len(violations) == $i && (forall k int :: 0 <= k && k < len(violations) ==> violations[k] != nil)
+//@   loop 2 invariant reporterOK(reporter) && reporter.pass == pass && reporter.ignoreSet == ignoreSet && pass.$reports == old(pass.$reports) && len(violations) == len(missingPackages) + $i && (forall k int :: 0 <= k && k < len(violations) ==> violations[k] != nil)
+//@   loop 3 invariant reporterOK(reporter) && reporter.pass == pass && reporter.ignoreSet == ignoreSet && pass.$reports == old(pass.$reports) && len(violations) == len(missingPackages) + len(missingInterfaces) + $i && (forall k int :: 0 <= k && k < len(violations) ==> violations[k] != nil)
